@@ -31,6 +31,11 @@ class RemoveFutureImports(SimpleCodemod):
     def leave_ImportFrom(
         self, original_node: cst.ImportFrom, updated_node: cst.ImportFrom
     ):
+        if not self.filter_by_path_includes_or_excludes(
+            self.node_position(original_node)
+        ):
+            return updated_node
+
         match original_node.module:
             case cst.Name(value="__future__"):
                 match original_node.names:
